@@ -1,0 +1,8 @@
+//go:build verif
+
+// Declarations for the determinism scan (C18).  See /verif/DESIGN.md.
+
+package parser
+
+// yyDebug is the goyacc debug level, written only by SetDebug (a debugging switch, never called on the compile path).
+//@ allow-global-write yyDebug
